@@ -6,7 +6,9 @@ import (
 	"fmt"
 	"strings"
 
+	"github.com/cnotch/ipchub/network/websocket"
 	"github.com/cnotch/ipchub/service/rtsp"
+	"github.com/cnotch/ipchub/service/wsp"
 
 	"ipchubverif/oracle/rtspwire"
 	"ipchubverif/vnet"
@@ -114,4 +116,154 @@ func (c *Client) PlayHandshake(host, path string) []int {
 	_, it = c.Do("PLAY", u, map[string]string{"Range": "npt=0.000-"}, "")
 	add(it)
 	return codes
+}
+
+// ---------------------------------------------------------------- websocket transports
+
+// WSClient is the harness side of one ws-rtsp connection (subprotocol "rtsp").
+type WSClient struct {
+	Sock  *vnet.MsgSocket
+	Sess  *rtsp.Session
+	CSeq  int
+	Items []rtspwire.Item
+	// TornMsgs lists websocket messages that are not exactly one response or one frame.
+	TornMsgs []string
+}
+
+// NewWSRtsp creates a ws-rtsp session for (path, username) as service.onWebSocketRequest does
+// after the HTTP interceptors accepted the upgrade.
+func NewWSRtsp(name, path, username string) *WSClient {
+	sock := vnet.NewMsgSocket(name, "rtsp")
+	conn := websocket.VerifNewConn(sock, path, username)
+	c := &WSClient{Sock: sock}
+	c.Sess = rtsp.VerifNewSession(conn)
+	vrt.GoNamed("session-"+name, c.Sess.VerifProcess)
+	return c
+}
+
+func (c *WSClient) Send(method, url string, headers map[string]string, body string) int {
+	c.CSeq++
+	var sb strings.Builder
+	fmt.Fprintf(&sb, "%s %s RTSP/1.0\r\nCSeq: %d\r\n", method, url, c.CSeq)
+	for k, v := range headers {
+		fmt.Fprintf(&sb, "%s: %s\r\n", k, v)
+	}
+	if body != "" {
+		fmt.Fprintf(&sb, "Content-Length: %d\r\n", len(body))
+	}
+	sb.WriteString("\r\n")
+	sb.WriteString(body)
+	c.Sock.Push(2, []byte(sb.String()))
+	return c.CSeq
+}
+
+// Drain parses every message received so far; each must be exactly one item.
+func (c *WSClient) Drain() []rtspwire.Item {
+	var nw []rtspwire.Item
+	for _, m := range c.Sock.Take() {
+		items, rest, err := rtspwire.Parse(m.Data)
+		if err != nil || len(rest) != 0 || len(items) != 1 {
+			c.TornMsgs = append(c.TornMsgs, fmt.Sprintf("%d items, %d trailing bytes, err=%v: %q", len(items), len(rest), err, truncB(m.Data, 48)))
+		}
+		nw = append(nw, items...)
+	}
+	c.Items = append(c.Items, nw...)
+	return nw
+}
+
+func (c *WSClient) Do(method, url string, headers map[string]string, body string) (int, []rtspwire.Item) {
+	cs := c.Send(method, url, headers, body)
+	vrt.WhenIdle()
+	return cs, c.Drain()
+}
+
+func truncB(b []byte, n int) []byte {
+	if len(b) > n {
+		return b[:n]
+	}
+	return b
+}
+
+// WSPClient is the harness side of a WSP control + data channel pair.
+type WSPClient struct {
+	Ctl, Data *vnet.MsgSocket
+	Channel   string
+	Seq       int
+	CSeq      int
+	Torn      []string
+}
+
+// NewWSP performs INIT on a control channel and JOIN on a data channel against srv.
+func NewWSP(srv *wsp.VerifServer, name, path, username string) *WSPClient {
+	c := &WSPClient{Ctl: vnet.NewMsgSocket(name+"-ctl", "control"), Data: vnet.NewMsgSocket(name+"-data", "data")}
+	srv.Accept(websocket.VerifNewConn(c.Ctl, path, username))
+	c.Seq++
+	c.Ctl.Push(1, []byte(fmt.Sprintf("WSP/1.1 INIT\r\nproto: rtsp\r\nhost: h\r\nport: 554\r\nseq: %d\r\n\r\n", c.Seq)))
+	vrt.WhenIdle()
+	for _, m := range c.Ctl.Take() {
+		s := string(m.Data)
+		if i := strings.Index(s, "channel: "); i >= 0 {
+			c.Channel = strings.TrimSpace(strings.SplitN(s[i+9:], "\r\n", 2)[0])
+		}
+	}
+	return c
+}
+
+// Join opens the data channel for channel id (own or foreign).
+func (c *WSPClient) Join(srv *wsp.VerifServer, path, username, channel string) string {
+	srv.Accept(websocket.VerifNewConn(c.Data, path, username))
+	c.Seq++
+	c.Data.Push(1, []byte(fmt.Sprintf("WSP/1.1 JOIN\r\nchannel: %s\r\nseq: %d\r\n\r\n", channel, c.Seq)))
+	vrt.WhenIdle()
+	out := ""
+	for _, m := range c.Data.Take() {
+		out += string(m.Data)
+	}
+	return out
+}
+
+// Wrap sends an RTSP request wrapped in a WSP WRAP command and returns the RTSP response item
+// found in the WSP answer (nil if none).
+func (c *WSPClient) Wrap(method, url string, headers map[string]string) *rtspwire.Item {
+	c.CSeq++
+	c.Seq++
+	var sb strings.Builder
+	fmt.Fprintf(&sb, "%s %s RTSP/1.0\r\nCSeq: %d\r\n", method, url, c.CSeq)
+	for k, v := range headers {
+		fmt.Fprintf(&sb, "%s: %s\r\n", k, v)
+	}
+	sb.WriteString("\r\n")
+	c.Ctl.Push(1, []byte(fmt.Sprintf("WSP/1.1 WRAP\r\ncontentLength: %d\r\nseq: %d\r\n\r\n%s", sb.Len(), c.Seq, sb.String())))
+	vrt.WhenIdle()
+	var out *rtspwire.Item
+	for _, m := range c.Ctl.Take() {
+		s := string(m.Data)
+		i := strings.Index(s, "\r\n\r\n")
+		if !strings.HasPrefix(s, "WSP/1.1 ") || i < 0 {
+			c.Torn = append(c.Torn, fmt.Sprintf("control message is not one WSP response: %q", truncB(m.Data, 60)))
+			continue
+		}
+		items, rest, err := rtspwire.Parse([]byte(s[i+4:]))
+		if err != nil || len(rest) != 0 || len(items) != 1 || items[0].Frame {
+			c.Torn = append(c.Torn, fmt.Sprintf("WSP response does not wrap exactly one RTSP response: %q", truncB([]byte(s[i+4:]), 60)))
+			continue
+		}
+		it := items[0]
+		out = &it
+	}
+	return out
+}
+
+// DataFrames parses the data-channel messages received so far: each must be exactly one frame.
+func (c *WSPClient) DataFrames() []rtspwire.Item {
+	var out []rtspwire.Item
+	for _, m := range c.Data.Take() {
+		items, rest, err := rtspwire.Parse(m.Data)
+		if err != nil || len(rest) != 0 || len(items) != 1 || !items[0].Frame {
+			c.Torn = append(c.Torn, fmt.Sprintf("data message is not exactly one interleaved frame (%d items, %d trailing, err=%v): %q", len(items), len(rest), err, truncB(m.Data, 48)))
+			continue
+		}
+		out = append(out, items[0])
+	}
+	return out
 }
